@@ -695,6 +695,58 @@ def _explore_delete(funcs, index, enums, text, follow_mode):
     return res
 
 
+SORT_NAMES = [b"a", b"B", b"b", b"ab", b"a b", b"-", b".x", b"A", b"\xc3\xa9", b"\xff", b"a\n", b"10", b"9"]
+
+
+def explore_sorted(funcs, index, enums, text):
+    """C03 (-sorted): the comparator process_dir hands to WalkDir::sort_by, from MIR, on every ordered pair of names"""
+    res = {"kind": "sorted", "paths": 0, "checks": 0, "violations": [], "unsupported": {}, "samples": []}
+    cands = [f for k, f in index.items() if k.startswith("{closure@src/find/mod.rs") and len(f.params) == 3 and all("DirEntry" in p[1] for p in f.params[1:])]
+    if len(cands) != 1:
+        res["unsupported"]["comparator closure of sort_by not found (%d candidates)" % len(cands)] = 1
+        return res
+    cmp_fn = cands[0]
+    ia, ib = z3.Int("name_a"), z3.Int("name_b")
+
+    def file_name(m, a):
+        return Struct("OsStrV", [deref(a[0]).fields[0]])
+
+    def os_cmp(m, a):
+        x, y = deref(a[0]).fields[0], deref(a[1]).fields[0]
+        return Enum("Ordering", "Less" if x < y else "Greater" if x > y else "Equal", [])
+    nat = {"DirEntry::file_name": file_name, "<OsStr as Ord>::cmp": os_cmp, "<&OsStr as Ord>::cmp": os_cmp, "<OsStr as PartialOrd>::partial_cmp": lambda m, a: Some(os_cmp(m, a))}
+    m = Machine(funcs, index, enums, models, natives=nat)
+    m.base_constraints = [ia >= 0, ia < len(SORT_NAMES), ib >= 0, ib < len(SORT_NAMES)]
+    m.pending = [[]]
+    t0 = time.time()
+    # the option is requested iff -sorted was given: checked in the walk exploration (asked == config); here: the order it defines
+    while m.pending:
+        m.reset_path(m.pending.pop())
+        try:
+            a = m.decide_int(ia, list(range(len(SORT_NAMES) - 1))); a = len(SORT_NAMES) - 1 if a is None else a
+            b = m.decide_int(ib, list(range(len(SORT_NAMES) - 1))); b = len(SORT_NAMES) - 1 if b is None else b
+            r = m.run(cmp_fn, [Ptr([Struct("Closure", [])], 0), Ptr([Struct("DirEntryV", [SORT_NAMES[a]])], 0), Ptr([Struct("DirEntryV", [SORT_NAMES[b]])], 0)])
+        except RustPanic as e:
+            res["violations"].append({"what": "panic: " + str(e)[:80]}); res["paths"] += 1
+            continue
+        except Unsupported as e:
+            res["unsupported"][str(e)[:100]] = res["unsupported"].get(str(e)[:100], 0) + 1
+            continue
+        except PathAbort:
+            continue
+        res["paths"] += 1
+        res["checks"] += 1
+        x, y = SORT_NAMES[a], SORT_NAMES[b]
+        want = "Less" if x < y else "Greater" if x > y else "Equal"
+        got = r.variant if isinstance(r, Enum) else str(r)
+        if got != want:
+            res["violations"].append({"what": "-sorted orders %r and %r as %s, byte-wise order is %s" % (x, y, got, want)})
+    res["wall_s"] = round(time.time() - t0, 2)
+    res["solver_calls"] = m.stats["solver_calls"]
+    res["functions_executed"] = sorted(m.executed)
+    return res
+
+
 def CONFIG_FIELDS_of(text):
     import re
     mm = re.search(r"_0 = Config \{ ([^}]*) \}", text or "")
@@ -719,7 +771,7 @@ if __name__ == "__main__":
     text = open(sys.argv[1]).read() if len(sys.argv) > 1 else None
     funcs, index, enums, secs, text = loader.load(os.environ.get("FINDUTILS_REPO", "/repo"), text)
     mode = os.environ.get("MODE", "walk")
-    r = (explore(funcs, index, enums, text) if mode == "walk" else explore_prune(funcs, index, enums, text) if mode == "prune"
+    r = (explore(funcs, index, enums, text) if mode == "walk" else explore_prune(funcs, index, enums, text) if mode == "prune" else explore_sorted(funcs, index, enums, text) if mode == "sorted"
          else explore_delete(funcs, index, enums, text, 2 if mode == "deleteL" else 0))
     v = r.pop("violations")
     print(json.dumps({k: r[k] for k in ("kind", "paths", "checks", "solver_calls", "wall_s", "unsupported", "samples")})[:900])
